@@ -3,6 +3,8 @@
 A *spec* is a dict
     seq     list of floats        the load sequence of the reference point (ratio 1)
     ratios  None | list of floats None: single-point call with a plain Series; list: one batch call, point i carries ratio[i] * seq
+    node_ids None | list          labels of the batch points in the ``node_id`` level, in the order of ``ratios`` (default 0..n-1); the
+                                  labels are arbitrary: offset, with gaps or not ascending
     G       float | list          relative stress gradient (list: one value per point, passed as a Series)
     params  dict                  overrides of BASE_PARAMS (value None removes the key)
 The summary holds, per point, the observables of the property (lifetimes, infinite-life verdicts, N_10/50/90) and the
@@ -53,12 +55,14 @@ def make_params(over, G):
     return pd.Series(p)
 
 
-def make_load(seq, ratios):
+def make_load(seq, ratios, node_ids=None):
     base = np.asarray(seq, dtype=float)
     if ratios is None:
         return pd.Series(base)
     n = len(ratios)
-    idx = pd.MultiIndex.from_product([range(len(base)), range(n)], names=['load_step', 'node_id'])
+    ids = list(range(n)) if node_ids is None else [int(v) for v in node_ids]
+    assert len(ids) == n and len(set(ids)) == n
+    idx = pd.MultiIndex.from_product([range(len(base)), ids], names=['load_step', 'node_id'])
     # the same float products a caller gets who scales the sequence point by point
     cols = [base * float(r) for r in ratios]
     return pd.Series(np.stack(cols, axis=1).flatten(), index=idx)
@@ -107,7 +111,7 @@ def assess(spec, want=('ram', 'raj')):
     seq, ratios = spec['seq'], spec.get('ratios')
     n = 1 if ratios is None else len(ratios)
     p = make_params(spec.get('params'), spec.get('G', BASE_PARAMS['G']))
-    load = make_load(seq, ratios)
+    load = make_load(seq, ratios, spec.get('node_ids'))
     out = {'n_points': n}
     try:
         with contextlib.redirect_stdout(io.StringIO()):
@@ -203,7 +207,7 @@ def prep_probe(spec):
     """the load sequence after the probability scaling and the c factor (the stage before HCM) and the shared maxima"""
     import pylife.strength.fkm_nonlinear.assessment_nonlinear_standard as A
     p = make_params(spec.get('params'), spec.get('G', BASE_PARAMS['G']))
-    load = make_load(spec['seq'], spec.get('ratios'))
+    load = make_load(spec['seq'], spec.get('ratios'), spec.get('node_ids'))
     with contextlib.redirect_stdout(io.StringIO()):
         s = A._scale_load_sequence_according_to_probability(p, load)
         s = A._scale_load_sequence_by_c_factor(p, s)
